@@ -3,7 +3,7 @@
 
   Property theorems only (helpers: FsProofs/Lemmas/FileLemmas.lean).  The reference `IoRef` is
   `io.FileIO` on a regular file restated as a pure state machine (validated against the real
-  `io.FileIO` on every run); `MemFile` is `_MemoryFile` of fs/memoryfs.py (tree at 4a1749f) line by
+  `io.FileIO` on every run); `MemFile` is `_MemoryFile` of fs/memoryfs.py (tree at c4647cd) line by
   line over a model of the shared `io.BytesIO`.  All statements quantify over every mode string / flag
   combination, every initial content, every position and every finite sequence of calls.
 -/
@@ -79,16 +79,6 @@ example : PyMode.pyOpen ['a', 'b', '+'] = some ⟨true, true, true, false, false
 
 /-! ## `_MemoryFile` refines the io reference -/
 
-/-- the sessions excluded from the refinement: some call falls (along the reference run) into one
-of the three classes of `File.devClass` — the two documented tolerances (a vacuous `readline(0)`
-on a closed/unreadable handle, a vacuous `writelines([])` on a read-only handle: `io.FileIO` lets
-them through, `_MemoryFile` rejects them, and the property text asks handles without permission to
-reject) and the open finding `appendEmptyWrite` -/
-def sessionAvoids (mode : Str) (init : Option Bytes) (ops : List Op) : Bool :=
-  match IoRef.openFile (Mode.flags mode) init with
-  | .ok s => avoids (Mode.flags mode) s ops
-  | .err _ => true
-
 /-- opening: same verdict, and the handle starts in related states (any flags with x ⇒ create) -/
 theorem open_refines (fl : Flags) (hx : fl.exclusive = true → fl.create = true) (ex : Option Bytes) :
     match MemFile.openFile fl ex, IoRef.openFile fl ex with
@@ -99,13 +89,156 @@ theorem open_refines (fl : Flags) (hx : fl.exclusive = true → fl.create = true
   cases ex <;> cases x <;> cases c <;> cases t <;> cases a <;>
     simp_all [MemFile.openFile, IoRef.openFile, R, Bio.seekSet, Bio.seekEnd, Bio.truncate]
 
-/-- one call (outside the three classes): same result, related states — open or closed handle,
-any flags, any position (also beyond EOF), any arguments -/
+/-- one call outside the two tolerated vacuous calls: same result, related states — open or
+closed handle, any flags, any position (also beyond EOF), any arguments -/
 theorem step_refines (fl : Flags) (m : MemState) (r : IoState) (op : Op)
     (hR : R m r) (hd : deviates fl r op = false) :
     R (MemFile.step fl m op).1 (IoRef.step fl r op).1 ∧
     (MemFile.step fl m op).2 = (IoRef.step fl r op).2 :=
   FileLemmas.step_refines fl m r op hR hd
+
+/-- the implementation rejects exactly the calls the reference's tolerance names -/
+theorem deviates_iff_mayReject (fl : Flags) (r : IoState) (op : Op) :
+    deviates fl r op = (IoRef.mayReject fl r op).isSome := by
+  cases op with
+  | readline n =>
+    cases n with
+    | none => simp [deviates, devClass, IoRef.mayReject]
+    | some z =>
+      by_cases hz : z = 0
+      · subst hz
+        cases hc : r.closed <;> cases hr : fl.reading <;> simp [deviates, devClass, IoRef.mayReject, hc, hr]
+      · simp [deviates, devClass, IoRef.mayReject, hz]
+  | writelines ls =>
+    cases hc : r.closed <;> cases hw : fl.writing <;> cases ls <;>
+      simp [deviates, devClass, IoRef.mayReject, hc, hw]
+  | read n => simp [deviates, devClass, IoRef.mayReject]
+  | readall => simp [deviates, devClass, IoRef.mayReject]
+  | readlines => simp [deviates, devClass, IoRef.mayReject]
+  | readinto k => simp [deviates, devClass, IoRef.mayReject]
+  | write d => simp [deviates, devClass, IoRef.mayReject]
+  | seek o w => simp [deviates, devClass, IoRef.mayReject]
+  | tell => simp [deviates, devClass, IoRef.mayReject]
+  | truncate z => simp [deviates, devClass, IoRef.mayReject]
+  | flush => simp [deviates, devClass, IoRef.mayReject]
+  | close => simp [deviates, devClass, IoRef.mayReject]
+  | next => simp [deviates, devClass, IoRef.mayReject]
+  | iter => simp [deviates, devClass, IoRef.mayReject]
+
+/-- in the two tolerated classes only the result of that call differs: the implementation
+rejects it with the error the tolerance names, the reference lets it through, and neither
+changes its state (so the states stay related) -/
+theorem tolerated_calls_keep_state (fl : Flags) (m : MemState) (r : IoState) (op : Op) (hR : R m r)
+    (ht : deviates fl r op = true) :
+    (MemFile.step fl m op).1 = m ∧ (IoRef.step fl r op).1 = r ∧
+    ∃ e, IoRef.mayReject fl r op = some e ∧ (MemFile.step fl m op).2 = .err e := by
+  obtain ⟨⟨b, bp⟩, p, c⟩ := m
+  obtain ⟨b', p', c'⟩ := r
+  obtain ⟨h1, h2, h3⟩ := hR
+  simp only at h1 h2 h3
+  subst h1 h2 h3
+  cases op with
+  | readline n =>
+    cases n with
+    | none => simp [deviates, devClass] at ht
+    | some z =>
+      simp [deviates, devClass] at ht
+      obtain ⟨hz, hcr⟩ := ht
+      subst hz
+      cases c <;> simp_all [MemFile.step, MemFile.stepClosed, MemFile.stepOpen, IoRef.step,
+        IoRef.isReadline0, IoRef.mayReject]
+  | writelines ls =>
+    cases c <;> cases hw : fl.writing <;> cases ls <;>
+      simp_all [deviates, devClass, MemFile.step, MemFile.stepClosed, MemFile.stepOpen, IoRef.step,
+        IoRef.stepOpen, IoRef.isReadline0, IoRef.mayReject]
+  | read n => simp [deviates, devClass] at ht
+  | readall => simp [deviates, devClass] at ht
+  | readlines => simp [deviates, devClass] at ht
+  | readinto k => simp [deviates, devClass] at ht
+  | write d => simp [deviates, devClass] at ht
+  | seek o w => simp [deviates, devClass] at ht
+  | tell => simp [deviates, devClass] at ht
+  | truncate z => simp [deviates, devClass] at ht
+  | flush => simp [deviates, devClass] at ht
+  | close => simp [deviates, devClass] at ht
+  | next => simp [deviates, devClass] at ht
+  | iter => simp [deviates, devClass] at ht
+
+/-- one call, any call: the states stay related and the implementation's result is admitted by
+the reference (its own result, or the tolerated rejection) -/
+theorem step_admits (fl : Flags) (m : MemState) (r : IoState) (op : Op) (hR : R m r) :
+    R (MemFile.step fl m op).1 (IoRef.step fl r op).1 ∧
+    IoRef.admitsOut fl r op (MemFile.step fl m op).2 = true := by
+  cases hd : deviates fl r op with
+  | false =>
+    obtain ⟨hR', ho⟩ := FileLemmas.step_refines fl m r op hR hd
+    exact ⟨hR', by simp [IoRef.admitsOut, ho]⟩
+  | true =>
+    obtain ⟨hm, hr, e, he, ho⟩ := tolerated_calls_keep_state fl m r op hR hd
+    refine ⟨by rw [hm, hr]; exact hR, ?_⟩
+    simp [IoRef.admitsOut, he, ho]
+
+/-- any sequence of calls from related states is admitted by the reference -/
+theorem runFrom_admits (fl : Flags) (ops : List Op) (m : MemState) (r : IoState) (hR : R m r) :
+    IoRef.admitsFrom fl r ops (MemFile.runFrom fl m ops) = true := by
+  induction ops generalizing m r with
+  | nil => simp [MemFile.runFrom, IoRef.admitsFrom, hR.1]
+  | cons op ops ih =>
+    obtain ⟨hR', ho⟩ := step_admits fl m r op hR
+    have hrest := ih _ _ hR'
+    simp only [MemFile.runFrom]
+    cases hrun : MemFile.runFrom fl (MemFile.step fl m op).1 ops with
+    | mk tr fin =>
+      rw [hrun] at hrest
+      simp only [IoRef.admitsFrom, Bool.and_eq_true, decide_eq_true_eq]
+      exact ⟨⟨ho, by simp [MemFile.obsTell, IoRef.obsTell, hR'.2.1, hR'.2.2]⟩, hrest⟩
+
+/-- **The refinement theorem, unconditional.**  For every mode string, every initial content (or a
+missing file) and every finite sequence of calls, what a MemoryFS file object does is admitted by
+the io reference: the open verdict is the same; every call returns the reference's result — or,
+for exactly `readline(0)` on a closed/unreadable handle and `writelines([])` on a read-only handle,
+the rejection the documented tolerance allows (`IoRef.mayReject`); `tell()` after every call and the
+bytes of the file at the end are the reference's. -/
+theorem memfile_refines_ioref (mode : Str) (init : Option Bytes) (ops : List Op) :
+    IoRef.admits mode init ops (MemFile.run mode init ops) = true := by
+  unfold MemFile.run IoRef.admits
+  cases hv : Mode.validateBin mode with
+  | err e => simp
+  | ok u =>
+    have hx : (Mode.flags mode).exclusive = true → (Mode.flags mode).create = true := by
+      simp [Mode.flags, Mode.exclusive, Mode.create]
+      intro h; simp [h]
+    have ho := open_refines (Mode.flags mode) hx init
+    cases hm : MemFile.openFile (Mode.flags mode) init with
+    | err e =>
+      cases hr : IoRef.openFile (Mode.flags mode) init with
+      | err e' => simp [hm, hr] at ho; simp [ho]
+      | ok r => simp [hm, hr] at ho
+    | ok m =>
+      cases hr : IoRef.openFile (Mode.flags mode) init with
+      | err e' => simp [hm, hr] at ho
+      | ok r =>
+        simp only [hm, hr] at ho
+        simpa using runFrom_admits (Mode.flags mode) ops m r ho
+
+/-- `admits` is not vacuous: a wrong result, a wrong position, wrong final bytes or a rejection
+outside the tolerance are not admitted -/
+theorem admits_is_strict :
+    IoRef.admits ['r'] (some [48]) [.read none] (.ok ([(.bytes [], some 1)], [48])) = false ∧
+    IoRef.admits ['r'] (some [48]) [.read none] (.ok ([(.bytes [48], some 0)], [48])) = false ∧
+    IoRef.admits ['r', '+'] (some [48]) [.write [49]] (.ok ([(.nat 1, some 1)], [48])) = false ∧
+    IoRef.admits ['r'] (some [48]) [.read none] (.ok ([(.err .notPermitted, some 0)], [48])) = false ∧
+    IoRef.admits ['w'] none [.readline (some 0)] (.ok ([(.err .closed, some 0)], [])) = false ∧
+    IoRef.admits ['x'] (some [48]) [] (.ok ([], [48])) = false :=
+  ⟨by decide, by decide, by decide, by decide, by decide, by decide⟩
+
+/-! ### exact equality outside the tolerance -/
+
+/-- no call of the session is one of the two tolerated vacuous calls (along the reference run) -/
+def sessionAvoids (mode : Str) (init : Option Bytes) (ops : List Op) : Bool :=
+  match IoRef.openFile (Mode.flags mode) init with
+  | .ok s => avoids (Mode.flags mode) s ops
+  | .err _ => true
 
 /-- any sequence of calls from related states: same results, same `tell()` after every call,
 same final bytes -/
@@ -122,20 +255,9 @@ theorem runFrom_refines (fl : Flags) (ops : List Op) (m : MemState) (r : IoState
     rw [hrest, ho]
     simp [MemFile.obsTell, IoRef.obsTell, hR'.2.1, hR'.2.2]
 
-/-
-  FULL STATEMENT
-
-    theorem memfile_refines_ioref (mode : Str) (init : Option Bytes) (ops : List Op) :
-        MemFile.run mode init ops = IoRef.run mode init ops
-
-  Since the repairs d2dd72d / c173fc2 / dee803f / 4a1749f it fails only in the three classes of
-  `devClass`.  Two of them are the documented tolerance (the reference is laxer than the property
-  text on a vacuous call; rejecting is conformant), one — a zero-length write in append mode moves
-  the position — is an open finding (`memfile_refines_ioref_counterexample`).  What is proved is the
-  statement under the decidable hypothesis `sessionAvoids`; once the finding is repaired the
-  hypothesis reduces to the tolerance alone.
--/
-theorem memfile_refines_ioref_partial (mode : Str) (init : Option Bytes) (ops : List Op)
+/-- when the tolerance is not exercised, "admitted" is plain equality of all observations
+(formerly `memfile_refines_ioref_partial`; the hypothesis now names the tolerance only) -/
+theorem memfile_eq_ioref_of_avoids (mode : Str) (init : Option Bytes) (ops : List Op)
     (h : sessionAvoids mode init ops = true) :
     MemFile.run mode init ops = IoRef.run mode init ops := by
   unfold MemFile.run IoRef.run
@@ -160,13 +282,12 @@ theorem memfile_refines_ioref_partial (mode : Str) (init : Option Bytes) (ops : 
         simp only [hm, hr] at ho h
         simp [runFrom_refines (Mode.flags mode) ops m r ho h]
 
-/-- a static sufficient condition: a session without `readline(0)`, without an all-empty
-`writelines` and without `write(b"")` avoids all three classes — for every mode, content, and
-whatever else it does (use after close, seeks anywhere, truncates, iteration, …) -/
+/-- a static sufficient condition: a session without `readline(0)` and without `writelines([])`
+is equal on all observations — for every mode, content, and whatever else it does (zero-length
+writes, use after close, seeks anywhere, truncates, iteration, …) -/
 def noVacuousCall : Op → Bool
   | .readline (some z) => z != 0
-  | .writelines ls => !ls.all (·.isEmpty)
-  | .write d => !d.isEmpty
+  | .writelines ls => !ls.isEmpty
   | _ => true
 
 theorem avoids_of_noVacuousCall (fl : Flags) (ops : List Op) (s : IoState)
@@ -186,15 +307,9 @@ theorem avoids_of_noVacuousCall (fl : Flags) (ops : List Op) (s : IoState)
         have hz : (z == 0) = false := by simpa [noVacuousCall] using h1
         simp [deviates, devClass, hz]
     | writelines ls =>
-      have hall : ls.all (·.isEmpty) = false := by simpa [noVacuousCall] using h1
-      have hne : ls.isEmpty = false := by
-        cases ls with
-        | nil => simp at hall
-        | cons x xs => rfl
-      simp [deviates, devClass, hall, hne]
-    | write d =>
-      have hd : d.isEmpty = false := by simpa [noVacuousCall] using h1
-      simp [deviates, devClass, hd]
+      have hne : ls.isEmpty = false := by simpa [noVacuousCall] using h1
+      simp [deviates, devClass, hne]
+    | write d => simp [deviates, devClass]
     | read n => simp [deviates, devClass]
     | readall => simp [deviates, devClass]
     | readlines => simp [deviates, devClass]
@@ -207,41 +322,26 @@ theorem avoids_of_noVacuousCall (fl : Flags) (ops : List Op) (s : IoState)
     | next => simp [deviates, devClass]
     | iter => simp [deviates, devClass]
 
-theorem memfile_refines_ioref_of_noVacuousCall (mode : Str) (init : Option Bytes) (ops : List Op)
+theorem memfile_eq_ioref_of_noVacuousCall (mode : Str) (init : Option Bytes) (ops : List Op)
     (h : ops.all noVacuousCall = true) :
     MemFile.run mode init ops = IoRef.run mode init ops := by
-  apply memfile_refines_ioref_partial
+  apply memfile_eq_ioref_of_avoids
   unfold sessionAvoids
   split
   · exact avoids_of_noVacuousCall _ _ _ h
   · rfl
 
 /-- the hypotheses are satisfiable by non-trivial sessions (the second one runs through every
-class that used to deviate: clamped seek, truncate() beyond EOF, iteration, use after close) -/
+class that used to deviate: clamped seek, truncate() beyond EOF, iteration, zero-length append
+write, use after close) -/
 example : sessionAvoids ['r', '+'] (some [48, 49, 10, 50])
     [.seek 2 0, .truncate (some 8), .tell, .write [88], .seek (-3) 2, .readline none, .close] = true := by
   decide
-example : List.all [Op.seek (-1) 1, .seek 9 0, .truncate none, .seek 0 0, .iter, .read none, .close,
-    .write [88], .tell] noVacuousCall = true := by decide
+example : List.all [Op.seek (-1) 1, .seek 9 0, .truncate none, .seek 0 0, .iter, .write [], .read none,
+    .close, .write [88], .tell] noVacuousCall = true := by decide
 
-/-! ### what remains outside the theorem: one witness per class -/
-
-/-- F5 (open finding): in append mode a zero-length write moves `_MemoryFile`'s position to EOF;
-`a+`: `seek(0); write(b""); read()` then returns nothing instead of the file -/
-theorem memfile_refines_ioref_counterexample :
-    MemFile.run ['a', '+'] (some [48, 49]) [.seek 0 0, .write [], .read none] ≠
-    IoRef.run ['a', '+'] (some [48, 49]) [.seek 0 0, .write [], .read none] := by decide
-
-theorem append_empty_write_counterexample :
-    MemFile.run ['a', '+'] (some [48, 49]) [.seek 0 0, .write [], .read none] =
-      .ok ([(.nat 0, some 0), (.nat 0, some 2), (.bytes [], some 2)], [48, 49]) ∧
-    IoRef.run ['a', '+'] (some [48, 49]) [.seek 0 0, .write [], .read none] =
-      .ok ([(.nat 0, some 0), (.nat 0, some 0), (.bytes [48, 49], some 2)], [48, 49]) :=
-  ⟨by decide, by decide⟩
-
-/-- T0/T1 (documented tolerance): `readline(0)` on a write-only or closed handle and
-`writelines([])` on a read-only handle are rejected by `_MemoryFile` and let through by `io.FileIO`;
-nothing else differs (state, position and bytes are the same afterwards) -/
+/-- the tolerance is really exercised by the code: plain equality fails on exactly these calls
+(T0 `readline(0)` on a write-only / closed handle, T1 `writelines([])` on a read-only handle) -/
 theorem tolerated_classes_counterexample :
     MemFile.run ['w'] none [.readline (some 0)] = .ok ([(.err .notPermitted, some 0)], []) ∧
     IoRef.run ['w'] none [.readline (some 0)] = .ok ([(.bytes [], some 0)], []) ∧
@@ -250,47 +350,6 @@ theorem tolerated_classes_counterexample :
     MemFile.run ['r'] (some []) [.writelines []] = .ok ([(.err .notPermitted, some 0)], []) ∧
     IoRef.run ['r'] (some []) [.writelines []] = .ok ([(.none, some 0)], []) :=
   ⟨by decide, by decide, by decide, by decide, by decide, by decide⟩
-
-/-- in the tolerated classes only the result of that call differs: the states stay related -/
-theorem tolerated_calls_keep_state (fl : Flags) (m : MemState) (r : IoState) (op : Op) (hR : R m r)
-    (ht : devClass fl r op = some .readlineZero ∨ devClass fl r op = some .writelinesEmptyRO) :
-    R (MemFile.step fl m op).1 (IoRef.step fl r op).1 ∧ (MemFile.step fl m op).1 = m ∧
-    (IoRef.step fl r op).1 = r := by
-  obtain ⟨⟨b, bp⟩, p, c⟩ := m
-  obtain ⟨b', p', c'⟩ := r
-  obtain ⟨h1, h2, h3⟩ := hR
-  simp only at h1 h2 h3
-  subst h1 h2 h3
-  cases op with
-  | readline n =>
-    cases n with
-    | none => simp [devClass] at ht
-    | some z =>
-      simp [devClass] at ht
-      obtain ⟨hz, hcr⟩ := ht
-      subst hz
-      cases c <;> simp_all [MemFile.step, MemFile.stepClosed, MemFile.stepOpen, IoRef.step,
-        IoRef.isReadline0, R]
-  | writelines ls =>
-    cases c <;> cases hw : fl.writing <;> cases ls <;>
-      simp_all [devClass, MemFile.step, MemFile.stepClosed, MemFile.stepOpen, IoRef.step, IoRef.stepOpen,
-        IoRef.isReadline0, R]
-    all_goals (split at ht <;> simp_all)
-  | write d =>
-    exfalso
-    simp only [devClass] at ht
-    rcases ht with ht | ht <;> (split at ht <;> (try split at ht) <;> simp_all)
-  | read n => simp [devClass] at ht
-  | readall => simp [devClass] at ht
-  | readlines => simp [devClass] at ht
-  | readinto k => simp [devClass] at ht
-  | seek o w => simp [devClass] at ht
-  | tell => simp [devClass] at ht
-  | truncate z => simp [devClass] at ht
-  | flush => simp [devClass] at ht
-  | close => simp [devClass] at ht
-  | next => simp [devClass] at ht
-  | iter => simp [devClass] at ht
 
 /-! ### regression theorems: the repaired defects stay repaired (each was a `…_counterexample`
 of the previous tree; now both machines agree on the very same witness) -/
@@ -332,6 +391,17 @@ theorem iteration_repaired :
       IoRef.run ['a'] (some [97, 10, 98]) [.seek 0 0, .next, .iter] :=
   ⟨by decide, by decide, by decide, by decide⟩
 
+/-- c4647cd (was `append_empty_write_counterexample`): a zero-length write / writelines in
+append mode leaves the position alone; `a+`: `seek(0); write(b""); read()` returns the file -/
+theorem append_empty_write_repaired :
+    MemFile.run ['a', '+'] (some [48, 49]) [.seek 0 0, .write [], .writelines [[], []], .read none] =
+      .ok ([(.nat 0, some 0), (.nat 0, some 0), (.none, some 0), (.bytes [48, 49], some 2)], [48, 49]) ∧
+    MemFile.run ['a', '+'] (some [48, 49]) [.seek 0 0, .write [], .writelines [[], []], .read none] =
+      IoRef.run ['a', '+'] (some [48, 49]) [.seek 0 0, .write [], .writelines [[], []], .read none] ∧
+    MemFile.run ['a'] (some [48]) [.seek 0 0, .writelines [[], [88]], .tell] =
+      .ok ([(.nat 0, some 0), (.none, some 2), (.nat 2, some 2)], [48, 88]) :=
+  ⟨by decide, by decide, by decide⟩
+
 /-- 5781f51: truncate(size) keeps the position, append writes at EOF, read-only handles reject
 truncate and writelines -/
 theorem repaired_defects_agree :
@@ -350,7 +420,8 @@ position ends up after it -/
 theorem append_writes_at_end (fl : Flags) (m : MemState) (d : Bytes)
     (hw : fl.writing = true) (ha : fl.appending = true) (ho : m.closed = false) :
     (MemFile.step fl m (.write d)).1.bio.bytes = m.bio.bytes ++ d ∧
-    (MemFile.step fl m (.write d)).1.pos = (m.bio.bytes ++ d).length ∧
+    (d ≠ [] → (MemFile.step fl m (.write d)).1.pos = (m.bio.bytes ++ d).length) ∧
+    (d = [] → (MemFile.step fl m (.write d)).1.pos = m.pos) ∧
     (MemFile.step fl m (.write d)).2 = .nat d.length := by
   obtain ⟨⟨b, bp⟩, p, c⟩ := m
   simp only at ho; subst ho
@@ -359,8 +430,9 @@ theorem append_writes_at_end (fl : Flags) (m : MemState) (d : Bytes)
     subst this
     simp [MemFile.step, MemFile.stepOpen, hw, ha, MemFile.seekLock, Bio.write, Bio.seekSet, Bio.seekEnd,
       Out.isErr]
-  · simp [MemFile.step, MemFile.stepOpen, hw, ha, MemFile.seekLock, Bio.write, Bio.seekSet, Bio.seekEnd,
-      Out.isErr, hd, writeAt_end]
+  · have hne : d ≠ [] := by intro h; simp [h] at hd
+    simp [MemFile.step, MemFile.stepOpen, hw, ha, MemFile.seekLock, Bio.write, Bio.seekSet, Bio.seekEnd,
+      Out.isErr, hd, writeAt_end, hne]
 
 theorem append_writes_at_end_ref (fl : Flags) (s : IoState) (d : Bytes)
     (hw : fl.writing = true) (ha : fl.appending = true) (ho : s.closed = false) (hd : d ≠ []) :
@@ -373,10 +445,26 @@ theorem append_writes_at_end_ref (fl : Flags) (s : IoState) (d : Bytes)
 theorem append_writelines_at_end (fl : Flags) (m : MemState) (ls : List Bytes)
     (hw : fl.writing = true) (ha : fl.appending = true) (ho : m.closed = false) :
     (MemFile.step fl m (.writelines ls)).1.bio.bytes = m.bio.bytes ++ ls.flatten := by
-  obtain ⟨⟨b, bp⟩, p, c⟩ := m
-  simp only at ho; subst ho
-  have := (foldl_write_at_end fl ls b false).2
-  simp [MemFile.step, MemFile.stepOpen, hw, ha, MemFile.seekLock, Bio.seekSet, Bio.seekEnd, Out.isErr, this]
+  have hR : R m ⟨m.bio.bytes, m.pos, false⟩ := ⟨rfl, rfl, ho⟩
+  have hd : deviates fl ⟨m.bio.bytes, m.pos, false⟩ (.writelines ls) = false := by
+    simp [deviates, devClass, hw]
+  obtain ⟨⟨h1, _, _⟩, _⟩ := FileLemmas.step_refines fl m _ _ hR hd
+  rw [h1]
+  have hf := foldl_write_append fl ha ls m.bio.bytes m.pos false
+  cases ls with
+  | nil => simp [IoRef.step, IoRef.stepOpen, IoRef.isReadline0]
+  | cons l ls =>
+    simp only [IoRef.step, IoRef.stepOpen, IoRef.isReadline0, hw]
+    simp only [List.isEmpty_cons, Bool.false_eq_true, if_false, Bool.not_true]
+    rw [hf]
+    split
+    · next hall =>
+      have : (l :: ls).flatten = [] := by
+        simp only [List.all_eq_true] at hall
+        simp only [List.flatten_eq_nil_iff]
+        intro x hx; simpa using hall x hx
+      simp [this]
+    · simp
 
 /-- `truncate(size)` and `truncate()` (= `truncate(tell())`): the position does not move; the file
 keeps its first `size` bytes and is extended with zero bytes when it was shorter -/
